@@ -290,10 +290,59 @@ def run(run):
             call(f"array_contract_path(optimize='{pre}')", "graph+scalars:" + kind, len(inp2),
                  lambda: ct.array_contract_path(inp2, output, size, optimize=pre, cache=False), inp2, output, size, "path",
                  timeout=300, extra={"scalars_appended": extra})
+    # ---- 6. the partition-based builders under an ADVERSARIAL partitioner ------------------------------------------
+    # labels / kahypar reach the tree through PartitionTreeBuilder.build_divide / build_agglom; whatever labelling a
+    # partitioner returns (one block, all singletons, unbalanced, labels with gaps) the builder must end with a complete
+    # tree (spec/Build.tla: DivideMany / GroupUp / Auto)
+    from cotengra.core import PartitionTreeBuilder
+
+    def adversary(style, arng):
+        def partition_fn(inputs_, output_, size_dict_, parts=2, seed=None, **kw):
+            n = len(inputs_)
+            if style == "one-block":
+                return [0] * n
+            if style == "singletons":
+                return list(range(n))
+            if style == "gaps":
+                return [3 * arng.randrange(parts) + 7 for _ in range(n)]
+            if style == "unbalanced":
+                return [0] + [1] * (n - 1)
+            if style == "alternating":
+                # first call splits, later calls refuse
+                partition_fn.calls = getattr(partition_fn, "calls", 0) + 1
+                return [k % 2 for k in range(n)] if partition_fn.calls % 2 else [0] * n
+            return [arng.randrange(max(1, parts)) for _ in range(n)]
+        return partition_fn
+
+    STYLES = ["one-block", "singletons", "gaps", "unbalanced", "alternating", "random", "random"]
+    for _ in range(30 if quick else 400):
+        if rng.random() < 0.5:
+            inputs, output, size, kind = graph_net(rng, rng.randint(3, 14))
+        else:
+            inputs, output, size, kind = rng.choice(smalls)
+            if len(inputs) < 2:
+                continue
+        N = len(inputs)
+        style = rng.choice(STYLES)
+        aseed = rng.randrange(10**6)
+        builder = PartitionTreeBuilder(adversary(style, random.Random(aseed)))
+        if rng.random() < 0.5:
+            opts = {"cutoff": rng.choice([1, 2, 3]), "parts": rng.choice([2, 3, 5]), "parts_decay": rng.choice([0.0, 0.5, 1.0]),
+                    "sub_optimize": rng.choice(["greedy", "auto"]), "super_optimize": rng.choice(["greedy", "auto-hq", "optimal"]),
+                    "check": rng.random() < 0.5, "seed": aseed}
+            call(f"PartitionTreeBuilder.build_divide[{style}]", "adversarial:" + kind, N,
+                 lambda: builder.build_divide(inputs, output, size, **opts), inputs, output, size, "tree", timeout=60,
+                 extra={"opts": opts, "style": style})
+        else:
+            opts = {"groupsize": rng.choice([1, 2, 3]), "sub_optimize": rng.choice(["greedy", "auto"]),
+                    "check": rng.random() < 0.5, "seed": aseed}
+            call(f"PartitionTreeBuilder.build_agglom[{style}]", "adversarial:" + kind, N,
+                 lambda: builder.build_agglom(inputs, output, size, **opts), inputs, output, size, "tree", timeout=60,
+                 extra={"opts": opts, "style": style})
     judge(run, cases, descs)
     run.cov["rule"] = ("finders: 11 presets via array_contract_path/tree, 9 optimizer classes via search/__call__, 8 hyper methods via "
                        "their registered trial functions with parameters sampled from the registered space, explicit linear/edge/"
-                       "incomplete paths; networks: degenerate (1, 2 tensors, scalars, disconnected), random weird 2-8 tensors, "
+                       "incomplete paths, the partition-based builders under adversarial partition functions; networks: degenerate (1, 2 tensors, scalars, disconnected), random weird 2-8 tensors, "
                        "graphs of 12-45 tensors; distinct by (api, network, parameters)")
 
 
